@@ -405,6 +405,67 @@ func rulesC15(w *World, r *Report) {
 			r.Check(bounded, "C15.R7", key, w.instrPos(ia), "index bounded by the slice's length", "the slot counter indexing "+newExprCtx(w).expr(ia.X)+" is driven by offsets computed from file content and is not bounded by the slice's length: a corrupt base interval makes it run past the end (index out of range panic)")
 		})
 	}
+	// a piece of a split response is taken only after the number of pieces was looked at: Split/SplitN/Fields of
+	// foreign text may give fewer pieces than the code hopes for
+	{
+		n := 0
+		bad := ""
+		for _, f := range cmdFuncs(w) {
+			eachInstr(f, func(in ssa.Instruction) {
+				var x, idx ssa.Value
+				switch t := in.(type) {
+				case *ssa.IndexAddr:
+					x, idx = t.X, t.Index
+				case *ssa.Index:
+					x, idx = t.X, t.Index
+				default:
+					return
+				}
+				c, ok := x.(*ssa.Call)
+				if !ok {
+					return
+				}
+				sc := c.Common().StaticCallee()
+				if sc == nil || sc.Pkg == nil || (sc.Pkg.Pkg.Path() != "strings" && sc.Pkg.Pkg.Path() != "bytes") {
+					return
+				}
+				switch sc.Name() {
+				case "Split", "SplitN", "SplitAfter", "SplitAfterN", "Fields", "FieldsFunc":
+				default:
+					return
+				}
+				k, isK := constInt(idx)
+				if isK && k == 0 && strings.HasPrefix(sc.Name(), "Split") {
+					return // Split of anything by a non-empty separator has a first piece
+				}
+				n++
+				// a dominating test on len(of that very result)
+				guarded := false
+				for _, b := range f.Blocks {
+					if len(b.Instrs) == 0 || !b.Dominates(in.Block()) {
+						continue
+					}
+					iff, isIf := b.Instrs[len(b.Instrs)-1].(*ssa.If)
+					if !isIf {
+						continue
+					}
+					if bo, isBo := iff.Cond.(*ssa.BinOp); isBo {
+						for _, side := range []ssa.Value{bo.X, bo.Y} {
+							if lc, isC := side.(*ssa.Call); isC {
+								if bi, isB := lc.Common().Value.(*ssa.Builtin); isB && bi.Name() == "len" && lc.Common().Args[0] == x {
+									guarded = true
+								}
+							}
+						}
+					}
+				}
+				if !guarded && bad == "" {
+					bad = funcName(f) + " takes piece " + newExprCtx(w).expr(idx) + " of " + sc.Pkg.Pkg.Path() + "." + sc.Name() + " at " + w.instrPos(in) + " without having looked at the number of pieces"
+				}
+			})
+		}
+		r.Check(bad == "", "C15.R7", "cmd:split-piece-checked", "cmd", fmt.Sprintf("%d pieces of a split taken in package cmd, each after a length test", n), bad+": a response (or line) without the separator makes the command panic with index out of range")
+	}
 	ruleC15R6(w, r, "C15.R6")
 	ruleClientAllocations(w, r, "C15.R8")
 	ruleCmdAllocations(w, r, "C15.R8")
